@@ -191,4 +191,47 @@ def EKey.acts : EKey → List Act
 /-- one key press in emacs mode -/
 def ekey (k : KSt) (key : EKey) : KSt := callHandler key.hid key.rule key.acts k
 
+/-! ### the shipped Vi bindings, fully modelled (a small key set)
+
+    vi.py: `escape` (_back_to_navigation), `i`, `a`, `x`, `u` in navigation mode (default
+    save_before, except `u`: never); in insert mode the printable keys go to the SAME self-insert
+    binding of basic.py as in emacs mode (if_no_repeat).  `_fix_vi_cursor_position` runs after every
+    handler and acts when the editor is (now) in navigation mode.  No counts. -/
+
+inductive VKey
+  | i | a | x | u | escape | redo
+deriving Repr, DecidableEq
+
+/-- the character the key inserts in insert mode -/
+def VKey.letter : VKey → Char
+  | .i => 'i' | .a => 'a' | .x => 'x' | .u => 'u' | _ => ' '
+
+structure VSt where
+  k : KSt
+  ins : Bool        -- vi_state.input_mode == INSERT (otherwise NAVIGATION)
+deriving Repr, DecidableEq
+
+/-- a fresh Vi session starts in insert mode -/
+def vInit (doc : Buf) : VSt := { k := kInit doc, ins := true }
+
+def leftInLine (b : Buf) : Buf := setCursor ((b.cur : Int) - min (lineBeforeLen b) 1) b
+def rightInLine (b : Buf) : Buf := setCursor ((b.cur : Int) + min (lineAfterLen b) 1) b
+def viX (b : Buf) : Buf := delete (min 1 (lineAfterLen b)) b
+
+/-- one key press in Vi mode -/
+def vkey (v : VSt) (key : VKey) : VSt :=
+  if v.ins then
+    match key with
+    | .escape => { k := callHandler 20 (fun _ => true) [.edit leftInLine, .edit viFix] v.k, ins := false }
+    | .redo => { k := callHandler 10 (fun _ => false) [.redo] v.k, ins := true }
+    | key => { k := callHandler 0 (fun rep => !rep) [.edit (insertText [key.letter])] v.k, ins := true }
+  else
+    match key with
+    | .i => { k := callHandler 21 (fun _ => true) [] v.k, ins := true }
+    | .a => { k := callHandler 22 (fun _ => true) [.edit rightInLine] v.k, ins := true }
+    | .x => { k := callHandler 23 (fun _ => true) [.edit viX, .edit viFix] v.k, ins := false }
+    | .u => { k := callHandler 24 (fun _ => false) [.undo, .edit viFix] v.k, ins := false }
+    | .escape => { k := callHandler 20 (fun _ => true) [.edit viFix] v.k, ins := false }
+    | .redo => { k := callHandler 10 (fun _ => false) [.redo, .edit viFix] v.k, ins := false }
+
 end Ptk.C07
